@@ -422,6 +422,18 @@ fn check_reveal(ctx: &mut Ctx, r: &RevealCase) {
         });
     }
     let got = guarded(|| hidden.clone().reveal(&sec, &rv));
+    if prop == "C02" {
+        // C02 only asks that reveal's own reader is never asked for more than it holds: with
+        // SliceReader such a request is a slice-range panic (or an abort in the unchecked reads)
+        if let Err(p) = &got {
+            viol(ctx, format!("reveal out-of-range-request {} {}", p.0, crate::ctx::panic_class(&p.1)), format!("reveal asked its internal reader for octets it does not hold: panic at {}: {}", p.0, p.1));
+        }
+        ctx.tally("reveal");
+        if !value.is_empty() && value.len() % 16 == 0 {
+            ctx.note_nontrivial(fnv(&value, r.attr as u64 * 4 + r.wrong_key as u64));
+        }
+        return;
+    }
     match (&got, &want) {
         (Err(p), _) => {
             viol(ctx, format!("reveal-panics {} {}", p.0, crate::ctx::panic_class(&p.1)), format!("panic at {}: {}", p.0, p.1));
@@ -490,9 +502,11 @@ fn lo_boundary() -> Vec<u16> {
     v
 }
 
-fn run_reveal(ctx: &mut Ctx) {
+pub fn run_reveal(ctx: &mut Ctx) {
     let tier = ctx.tier;
-    ctx.nontrivial_mod = if tier.thorough() { 64 } else { 4 };
+    if ctx.prop != "C02" {
+        ctx.nontrivial_mod = if tier.thorough() { 64 } else { 4 };
+    }
     let attrs = reveal_attrs();
     // every value of the length field
     let block_counts: &[usize] = if tier.thorough() { &[1, 2, 3, 63] } else { &[1, 2, 3] };
@@ -561,7 +575,7 @@ fn run_reveal(ctx: &mut Ctx) {
     }
 }
 
-fn replay_reveal(ctx: &mut Ctx, v: &Value) {
+pub fn replay_reveal(ctx: &mut Ctx, v: &Value) {
     let r = RevealCase {
         attr: v["attr"].as_u64().unwrap_or(0) as u16,
         vlen: v["vlen"].as_u64().unwrap_or(0) as usize,
